@@ -64,7 +64,7 @@ def run(tier, seed):
             if name is None:
                 continue
             cases.append({"name": "%s@%s" % (name, r.name), "lang": r.name, "rows": [G.machine_row(x) for x in rows], "temps": G.temps_of(rows),
-                          "expected": ref[name]["expected"], "start": r.start, "source": job["_files"][sym + r.ext]})
+                          "expected": ref[name]["expected"], "start": r.start, "source": job["_files"][sym + r.ext], "check": "out", "flows": [], "param_sources": []})
     tot = c01.run_tlc(cases, root, v)
     by_name = {c["name"]: c for c in cases}
     seen = {vd["case"] for vd in tot["verdicts"]}
